@@ -171,3 +171,25 @@ Theorem source_same_slice_same_result : forall fs roots kind w slice n held,
   lrun loader_policy_of_source fs roots kind (same_slice_calls args_policy_of_source w slice n) held =
   repeat (c11_run fs roots kind (resolve_targets w slice)) n.
 Proof. rewrite gen_args_policy_copied, gen_loader_policy_per_build. exact same_slice_same_result. Qed.
+
+(** ** The build file of a package is what the path resolves to (Caco/LoadLinks.v)
+
+    [readBuildFile] (the function, not the loader's method) tests the build
+    file through [osutil.IsRegular] and makes no stat call of its own, and
+    [osutil.IsRegular] calls [os.Stat] (follows symbolic links), not
+    [os.Lstat]. *)
+Definition calls_of (caller : string) : list string :=
+  map (fun e => snd e) (filter (fun e => String.eqb (fst (fst e)) caller) call_edges).
+
+Definition pair_mem (a b : string) (l : list (string * string)) : bool :=
+  existsb (fun p => String.eqb (fst p) a && String.eqb (snd p) b) l.
+
+Definition build_file_follows_linksb : bool :=
+  existsb (String.eqb "osutil.IsRegular") (calls_of "readBuildFile") &&
+  negb (existsb (String.eqb "os.Lstat") (calls_of "readBuildFile")) &&
+  negb (existsb (String.eqb "os.Stat") (calls_of "readBuildFile")) &&
+  pair_mem "osutil.IsRegular" "os.Stat" osutil_stat_calls &&
+  negb (pair_mem "osutil.IsRegular" "os.Lstat" osutil_stat_calls).
+
+Lemma gen_build_file_follows_links : build_file_follows_linksb = true.
+Proof. vm_compute. reflexivity. Qed.
